@@ -11,13 +11,17 @@ use lc3_ensemble::sim::{InternalRegister, MemAccessCtx, SimErr, SimFlags, Simula
 use std::sync::atomic::Ordering;
 use std::sync::{Arc, Mutex, OnceLock};
 
-const SRC: [&str; 4] = [
+const SRC: [&str; 6] = [
     ".orig x3000\nLD R6, SP\nAND R0,R0,#0\nLOOP JSR A\nBPHERE ADD R0,R0,#1\nADD R2,R0,#-3\nBRn LOOP\nLEA R0, S\nPUTS\nHALT\nA ADD R6,R6,#-1\nSTR R7,R6,#0\nJSR B\nLDR R7,R6,#0\nADD R6,R6,#1\nRET\nB ADD R1,R1,#1\nST R1, M\nRET\nSP .fill xFD00\nM .fill 0\nS .stringz \"k\"\n.end",
     ".orig x3000\nAND R0,R0,#0\nAND R1,R1,#0\nLOOP ADD R1,R1,#2\nBPHERE ST R1, M\nADD R0,R0,#1\nADD R2,R0,#-4\nBRn LOOP\nHALT\nM .fill 0\n.end",
     ".orig x3000\nADD R0,R0,#1\nBPHERE ADD R0,R0,#1\nST R0, M\nADD R0,R0,#1\nHALT\nM .fill 0\n.end",
     // scale: 131072 calls that never return (frame depth past 2^16), then a call that does
     ".orig x3000\nAND R1,R1,#0\nLOOP JSR L1\nL1 JSR L2\nL2 ADD R1,R1,#-1\nBRnp LOOP\nBPHERE JSR SUB\nADD R2,R2,#1\nHALT\nSUB ADD R2,R2,#3\nST R2, M\nRET\nM .fill 0\n.end",
+    // the breakpoint address holds an instruction that transfers control to itself (a spin; a call to itself)
+    ".orig x3000\nADD R0,R0,#1\nST R0, M\nBPHERE BRnzp BPHERE\nM .fill 0\n.end",
+    ".orig x3000\nADD R0,R0,#1\nBPHERE JSR BPHERE\nM .fill 0\n.end",
 ];
+/// (indices 5 and 6 of progs(): SRC[4], SRC[5])
 /// histories run on the deep-recursion program (index 4), outside the BFS: breakpoint at the call, run there (262144 steps), then step over / out / in
 const DEEP: [&[u16]; 6] = [&[9, 7, 1], &[9, 7, 2], &[9, 7, 0, 2], &[9, 7, 1, 1, 1], &[9, 7, 0, 0, 1, 2], &[9, 7, 10, 5, 1]];
 struct Prog { obj: ObjectFile, bp: u16, m: u16, real: bool }
@@ -25,7 +29,7 @@ fn progs() -> &'static Vec<Prog> {
     static P: OnceLock<Vec<Prog>> = OnceLock::new();
     P.get_or_init(|| {
         let mk = |i: usize, real: bool| { let o = assemble_debug(parse_ast(SRC[i]).unwrap(), SRC[i]).unwrap(); let s = o.symbol_table().unwrap(); Prog { bp: s.lookup_label("BPHERE").unwrap(), m: s.lookup_label("M").unwrap(), obj: o, real } };
-        vec![mk(0, false), mk(1, false), mk(0, true), mk(2, false), mk(3, false)]
+        vec![mk(0, false), mk(1, false), mk(0, true), mk(2, false), mk(3, false), mk(4, false), mk(5, false)]
     })
 }
 
@@ -50,6 +54,8 @@ fn side(p: &Prog) -> Side {
     let st = Arc::new(Mutex::new(IntState { mcr: Some(sim.mcr().clone()), edge: true, ..Default::default() }));
     // interrupt service routine for the device's vector x90: ADD R3,R3,#1 ; RTI
     sim.mem[0x0190].set(0x1F00); sim.mem[0x1F00].set(0x16E1); sim.mem[0x1F01].set(0x8000);
+    // programs that spin forever get a periodic brake: the harness device clears the MCR every 150 polls (on both machines alike)
+    if p.obj.addr_iter().all(|(_, w)| w != Some(0xF025)) { st.lock().unwrap_or_else(|e| e.into_inner()).clear_mcr_every = Some(150); }
     sim.device_handler.add_device(IntSource { vect: 0x90, prio: 1, state: st.clone() }, &[]).ok().unwrap();
     Side { sim, dev: st, disp }
 }
@@ -145,6 +151,7 @@ fn fingerprint(w: &mut World) -> u64 {
     h = mix(h, s.frame_stack.len() << 4 | (s.hit_halt() as u64) << 1 | s.hit_breakpoint() as u64);
     h = mix(h, w.bps.iter().fold(0u64, |x, b| x * 2 + *b as u64) << 8 | w.pause as u64);
     let st = w.a.dev.lock().unwrap_or_else(|e| e.into_inner());
+    if let Some(n) = st.clear_mcr_every { h = mix(h, st.poll % n + 5000); }
     h = mix(h, st.clear_mcr_at.map(|c| if c >= st.poll { c - st.poll + 1 } else { 0 }).unwrap_or(99));
     // pending interrupt requests, relative to the current poll
     let mut pend: Vec<u64> = st.raise_at.iter().filter(|r| **r >= st.poll).map(|r| r - st.poll).collect(); pend.sort();
@@ -163,10 +170,10 @@ fn visit(prog: usize, h: &[u16]) -> Visit {
 }
 
 pub fn run(ctx: &Ctx) -> Report {
-    let mut rep = Report::new("explicit-state BFS, for each of 4 programs (nested calls 2 deep + loop + PUTS trap + HALT; a store loop for memory breakpoints; the first program under real traps, halting through the OS's MCR write; a straight line), over histories of 21 operations: step_in, step_over, step_out, run_with_limit(0,1,2,5,u64::MAX), the host setting instructions_run to u64::MAX-1 or 0 (documented as resettable), run, run_while(R0 != 2), insert/remove a PC, a register (R0 == 2) and a memory (M != 0) breakpoint, arm an asynchronous MCR clear 0/1/3 polls ahead. After every operation the real simulator is compared with a twin that is driven ONLY by step_in under the documented stop rules (halt, error, breakpoint after an executed step, step limit, tripwire, frame depth, MCR cleared): result, registers, PC, PSR, saved SP, memory, frame depth, instruction count, output, hit_halt/hit_breakpoint, MCR. Any split of a run into segments therefore equals the unbroken run. non-trivial = states at depth >= 1");
+    let mut rep = Report::new("explicit-state BFS, for each of 6 programs (a spin and a call-to-self with the breakpoint on the self-jumping instruction; nested calls 2 deep + loop + PUTS trap + HALT; a store loop for memory breakpoints; the first program under real traps, halting through the OS's MCR write; a straight line), over histories of 21 operations: step_in, step_over, step_out, run_with_limit(0,1,2,5,u64::MAX), the host setting instructions_run to u64::MAX-1 or 0 (documented as resettable), run, run_while(R0 != 2), insert/remove a PC, a register (R0 == 2) and a memory (M != 0) breakpoint, arm an asynchronous MCR clear 0/1/3 polls ahead. After every operation the real simulator is compared with a twin that is driven ONLY by step_in under the documented stop rules (halt, error, breakpoint after an executed step, step limit, tripwire, frame depth, MCR cleared): result, registers, PC, PSR, saved SP, memory, frame depth, instruction count, output, hit_halt/hit_breakpoint, MCR. Any split of a run into segments therefore equals the unbroken run. non-trivial = states at depth >= 1");
     let depth = ctx.pick(5usize, 8usize);
     let mut total_states = 0u64; let mut total_tr = 0u64; let mut frontier_total = 0u64;
-    for prog in 0..4 {
+    for prog in [0usize, 1, 2, 3, 5, 6] {
         let (states, transitions, frontier, per_depth, capped) = bfs_hist(ctx, &mut rep.acc, OPS.len(), depth, &|h| format!("{prog}:{}", h.iter().map(|x| x.to_string()).collect::<Vec<_>>().join(",")), |h| visit(prog, h));
         total_states += states; total_tr += transitions; frontier_total += frontier;
         for (d, n) in per_depth.iter().enumerate() { rep.acc.outcomes.insert(mix(prog as u64 * 16 + d as u64, *n)); rep.acc.count(&format!("program{prog}_new_states_depth_{d}"), *n); }
@@ -179,7 +186,7 @@ pub fn run(ctx: &Ctx) -> Report {
         if let Some((sig, d)) = v.violation { acc.violation(sig, format!("4:{}", DEEP[i as usize].iter().map(|x| x.to_string()).collect::<Vec<_>>().join(",")), d); }
     });
     rep.absorb(r);
-    rep.acc.states = total_states; rep.acc.transitions = total_tr; rep.acc.nontrivial = total_states - 4;
+    rep.acc.states = total_states; rep.acc.transitions = total_tr; rep.acc.nontrivial = total_states - 6;
     rep.bound("depth", Json::i(depth as u64)); rep.bound("alphabet", Json::i(OPS.len() as u64)); rep.bound("frontier_at_bound", Json::i(frontier_total));
     rep.require(total_states > 1000, "the run/step state space was explored");
     rep.assume("no interrupting device is attached: the only harness device is the MCR clearer, whose poll_interrupt answers None (interrupt placement is C10's subject)");
